@@ -167,6 +167,28 @@ func (r *run) doPod(p keys.PodIn, op string) {
 				at, at, unenc(strings.TrimPrefix(back, "=")), ko.AppTypePrefix), []string{op})
 		}
 	}
+	// oracle ("a key decodes back to the ... app type ... it was built from"), independent of the model: the two
+	// built-in app types may only be reached from their documented owner kinds (and the tables' own short words);
+	// every other kind must decode to itself, lower-cased.
+	if kind, has := p.Kind(); has && p.KindsWF() {
+		at := unenc(strings.TrimPrefix(keys.RealAT(ko.AppTypePrefix), "="))
+		lk := strings.ToLower(kind)
+		okKinds := map[string][]string{"statefulset": {"statefulset", "statefulsets", "sts"}, "deployment": {"deployment", "replicaset", "dp"}}
+		if al, builtin := okKinds[at]; builtin {
+			found := false
+			for _, a := range al {
+				if a == lk {
+					found = true
+				}
+			}
+			if !found {
+				r.violation("apptype-decodes-to-other-kind", fmt.Sprintf("pod %s/%s with owner kind %q: key %q decodes to app type %q, which is not the kind it was built from "+
+					"(it now shares the app prefix %q with a real %s of the same name)", p.NS, p.Name, kind, ko.KeyInDB, at, ko.PoolAppPrefix(), at), []string{op})
+			}
+		} else if kind != "NULL" && at != lk {
+			r.violation("apptype-decodes-to-other-kind", fmt.Sprintf("pod %s/%s with owner kind %q: key %q decodes to app type %q", p.NS, p.Name, kind, ko.KeyInDB, at), []string{op})
+		}
+	}
 	// oracle ("distinct pods always map to distinct allocation keys"): any kinds, any pool
 	id := p.NS + "/" + p.Name
 	if prev, ok := r.podKeys[ko.KeyInDB]; ok && prev != id {
